@@ -395,11 +395,12 @@ class PathState:
         self._add(self._scoped(t if d else z3.Not(t)))
         return d
 
-    def choose(self, n, conds=None):
-        """n-way decision.  ``conds[i]`` (optional) is the z3 condition of alternative i."""
+    def choose(self, n, conds=None, assume_feasible=False):
+        """n-way decision.  ``conds[i]`` (optional) is the z3 condition of alternative i.
+        assume_feasible: do not ask the solver which alternatives are feasible (the caller filtered them)."""
         d = self._next_decision()
         if d is None or d == FORCE_FORK:
-            feas = [i for i in range(n) if conds is None or self.is_feasible(conds[i])]
+            feas = [i for i in range(n) if conds is None or assume_feasible or self.is_feasible(conds[i])]
             if not feas:
                 raise PathAbort()
             if len(feas) > 1 and self.no_fork:
